@@ -54,6 +54,14 @@ def gen_link(rng):
         else:
             t_req += rng.choice([0, 1, 1, 2, 3, 5])
             events.append(["pull", t_req])
+    if rng.random() < 0.15:
+        # a consumer that pulls while it is notified of a publication (a `CallbackInput`; time adapters do the same):
+        # every publication is followed by a request for its time, made from inside the notification
+        t_pub, events = init, [["push", init], ["pull", init]]
+        for _ in range(rng.randint(3, 12)):
+            t_pub += rng.randint(1, 4)
+            events += [["push", t_pub], ["pull", t_pub]]
+        return {"chain": chain, "init": init, "in_time": None, "events": events, "notified": True}
     return {"chain": chain, "init": init, "in_time": in_time, "events": events}
 
 
@@ -72,13 +80,24 @@ def run_link(case):
     out = fm.Output(name="out", info=fm.Info(time=T(init * HOUR), grid=fm.NoGrid(), units=""))
     in_time = case.get("in_time")
     inp = fm.Input(name="in", info=fm.Info(time=None if in_time is None else T(in_time * HOUR), grid=None, units=None))
+    reached = []
+    results = []
+    if case.get("notified"):
+        def notified(caller, time):
+            reached.clear()
+            try:
+                v = caller.pull_data(time)
+                results.append({"reach": reached[-1] if reached else None, "value": {"ok": int(round(scalar(v)))}})
+            except Exception as e:  # noqa
+                results.append({"reach": reached[-1] if reached else None, "value": {"err": err_class(e)}})
+
+        inp = fm.CallbackInput(callback=notified, name="in", info=fm.Info(time=None, grid=None, units=None))
     cur = out
     for a in case["chain"]:
         cur = cur >> mk(a)
     cur >> inp
     inp.ping()
     inp.exchange_info()
-    reached = []
     orig = out.get_data
 
     def logged(time, target):
@@ -86,13 +105,19 @@ def run_link(case):
         return orig(time, target)
 
     out.get_data = logged
-    results = []
     idx = 0
     for ev in case["events"]:
         if ev[0] == "push":
-            out.push_data(np.array(float(idx)), T(ev[1] * HOUR))
-            idx += 1
             results.append(None)
+            n0 = len(results)
+            try:
+                out.push_data(np.array(float(idx)), T(ev[1] * HOUR))
+            except Exception as e:  # noqa
+                if case.get("notified") and len(results) == n0:
+                    results.append({"reach": None, "value": {"err": err_class(e)}})
+            idx += 1
+        elif case.get("notified"):
+            continue  # made by the input from inside the notification of the publication before
         else:
             reached.clear()
             try:
